@@ -396,6 +396,7 @@ func (h *Harness) Call(n *Node, key string, f func()) {
 // f cannot (lock held elsewhere). Used for observations that must not be reordered.
 func (h *Harness) Exclusive(n *Node, key string, f func()) {
 	t := h.S.Go(n.Name, n.Name+"/"+key, f)
+	t.quiet = true
 	saveSw, saveSt := h.S.pSwitchNum, h.S.pStallNum
 	h.S.pSwitchNum, h.S.pStallNum = 0, 0
 	h.S.last = t
